@@ -229,6 +229,11 @@ func (s IndexStep) Apply(val Value) (Value, error) {
 	// apply the correct marks for the result.
 	has, _ := val.HasIndex(s.Key).Unmark()
 	if !has.IsKnown() {
+		if val.Type().IsTupleType() {
+			// Each element of a tuple has its own type, so without knowing
+			// which one was selected we can't predict the result type.
+			return DynamicVal, nil
+		}
 		return UnknownVal(val.Type().ElementType()), nil
 	}
 	if !has.True() {
